@@ -350,6 +350,7 @@ void api_begin(Thread *t, int op, int handle, int expect_uid) {
   t->in_callback = false;
   memset(t->ncalls, 0, sizeof t->ncalls);
   t->op_calls = 0;
+  t->op_read_bytes = 0;
   t->op_parked = false;
   t->op_parked_ns = 0;
 }
